@@ -659,6 +659,17 @@ def streams(ctx):
 
 # ------------------------------------------------------------------ POSCAR
 
+def _given_vects(kw):
+    """the cell a POSCAR reader builds: from three vectors or from the 3x3 array of them; an origin, if given, must be zero (a POSCAR has none)"""
+    if 'origin' in kw and not all(sp.sympify(x) == 0 for x in np.ravel(np.asarray(kw['origin'], dtype=object))):
+        return None
+    if all(k in kw for k in ('avect', 'bvect', 'cvect')) and set(kw) <= {'avect', 'bvect', 'cvect', 'origin'}:
+        return np.array([np.asarray(kw[k], dtype=object) for k in ('avect', 'bvect', 'cvect')], dtype=object)
+    if 'vects' in kw and set(kw) <= {'vects', 'origin'}:
+        return np.asarray(kw['vects'], dtype=object)
+    return None
+
+
 def poscar_read(ctx):
     fn = ctx.fn(LP, 'load')
     loc = LP + '::load'
@@ -691,7 +702,8 @@ def poscar_read(ctx):
         live = [p for p in paths if p.done == 'return']
         ctx.need(len(live) == 1, 'poscar.load does not reduce to one path (%s)' % tag)
         box = [r for r in rec if r.kind == 'Box']
-        okb = len(box) == 1 and all(k in box[0].kw for k in ('avect', 'bvect', 'cvect')) and all(equal(box[0].kw[k], LV[i] * sc, deep=False) for i, k in enumerate(('avect', 'bvect', 'cvect')))
+        gv = _given_vects(box[0].kw) if len(box) == 1 else None
+        okb = gv is not None and np.shape(gv) == (3, 3) and equal(gv, LV * sc, deep=False)
         ctx.ob('POSCAR-READ', loc, '%s: lattice vectors are lines 3-5 times the scale factor of line 2' % tag, okb, node=fn, key=tag + ' lattice')
         at = [r for r in rec if r.kind == 'Atoms']
         sy = [r for r in rec if r.kind == 'System']
@@ -751,7 +763,8 @@ def poscar_roundtrip(ctx):
         at = [r for r in rec if r.kind == 'Atoms']
         sy = [r for r in rec if r.kind == 'System']
         V = system.box.vects
-        okb = len(box) == 1 and all(equal(box[0].kw.get(k), V[i], deep=False) for i, k in enumerate(('avect', 'bvect', 'cvect')))
+        gv2 = _given_vects(box[0].kw) if len(box) == 1 else None
+        okb = gv2 is not None and np.shape(gv2) == (3, 3) and equal(gv2, np.asarray(V, dtype=object), deep=False)
         ctx.ob('POSCAR-ROUNDTRIP', loc, '%s: the cell vectors read back are those of the system (scale factor divided out by the writer, multiplied in by the reader)' % tag, okb, node=rfn, key=tag + ' cell')
         order = [i for t in range(1, natypes + 1) for i, a in enumerate(atype) if a == t]   # documented normalisation: atoms grouped by type
         prop = at[0].kw.get('prop') if at else None
